@@ -53,7 +53,12 @@ def norm(v):
         v = v.decode("utf-8", "replace")
     if isinstance(v, str):
         return ("S", (), (str(v),))
-    a = np.asarray(v)
+    try:
+        a = np.asarray(v)
+    except ValueError:      # a ragged list (e.g. one array per sample, of different lengths): element by element
+        return ("L", tuple(norm(x) for x in v))
+    if a.dtype.kind == "O" and isinstance(v, (list, tuple)) and any(isinstance(x, (list, tuple, np.ndarray)) for x in v):
+        return ("L", tuple(norm(x) for x in v))
     if a.dtype.kind in "OSU":
         flat = tuple(x.decode("utf-8", "replace") if isinstance(x, bytes) else str(x) for x in a.ravel().tolist())
         return ("S", tuple(a.shape), flat)
